@@ -120,6 +120,24 @@ public:
     }
 
     /**
+     * @brief Get the value pointer and tell whether the slot was found cleared.
+     *
+     * A remove clears the slot before it shrinks the permutation and it does not
+     * change the node version, so a reader that found the key in the permutation may
+     * load a cleared slot. Such a reader must not use the result and retry.
+     *
+     * @param[out] cleared true if this slot holds neither a link nor a value.
+     * @retval The pointer of the contained value if exists.
+     * @retval nullptr otherwise.
+     */
+    [[nodiscard]] value* get_value(bool& cleared) const {
+        const auto ptr = loadAcquireN(child_or_v_);
+        cleared = (ptr == kValPtrFlag);
+        if ((ptr & kChildFlag) > 0 || cleared) { return nullptr; }
+        return reinterpret_cast<value*>(ptr); // NOLINT
+    }
+
+    /**
      * @brief Initialize the payload to zero.
      *
      */
